@@ -614,6 +614,35 @@ func main() {
 		w.Add(c)
 		w.Count("directed")
 	}
+	// size classes of element messages x every combination of skip flags (wave 8): one DenseNodes / Way /
+	// Relation message just below and just above 128 and 16384 bytes (2- and 3-byte length prefix) among
+	// small elements of every kind; a skipped message must be skipped whole, whatever its size
+	for _, kind := range []byte{'d', 'w', 'r'} {
+		for _, target := range []int{128, 16384} {
+			for _, above := range []bool{false, true} {
+				if target == 16384 && !above && a.Tier != "thorough" && kind != 'd' {
+					continue // quick: the three "just above" messages and one "just below"
+				}
+				d := pbfgen.SizedFile(kind, target, above)
+				var cfgs []config
+				bit := map[byte]int{'d': 1, 'w': 2, 'r': 4}[kind]
+				for m := 0; m < 8; m++ {
+					// 16 KiB messages in the quick tier: the four combinations that skip the big kind and the one
+					// without flags (each run that returns the big message costs ~2 s in Coq); all eight otherwise
+					if target == 16384 && a.Tier != "thorough" && m != 0 && m&bit == 0 {
+						continue
+					}
+					cfgs = append(cfgs, config{SkipNodes: m&1 != 0, SkipWays: m&2 != 0, SkipRelations: m&4 != 0})
+				}
+				c, _, err := buildCase(d, cfgs, func(k int) []int { return []int{1 + k%2} }, fmt.Sprintf("message-size:%c:%d:above=%v", kind, target, above), nil)
+				if err != nil {
+					fail(err)
+				}
+				w.Add(c)
+				w.Count("message-size")
+			}
+		}
+	}
 	for i := 0; i < nfiles; i++ {
 		opts := pbfgen.Opts{MaxItems: 7, MaxTags: 4, MinBlocks: 1, MaxBlocks: 4, ZeroPct: 10, UnknownMemberPct: 15}
 		if i%5 == 4 { // a stream that starts with data (restart at an offset): several blocks
